@@ -561,3 +561,32 @@ Proof.
   intros H x y Hx Hy E. rewrite forallb_forall in H. specialize (H x Hx). rewrite forallb_forall in H.
   specialize (H y Hy). apply Nat.eqb_eq in E. rewrite E in H. cbn [negb orb] in H. now apply str_eqb_eq.
 Qed.
+
+Lemma ssorted_check t : (fix sortedb (l : list nat) : bool :=
+                           match l with a :: ((b :: _) as r) => (a <? b) && sortedb r | _ => true end) (map fst t) = true
+  -> ssorted t.
+Proof.
+  induction t as [|[k p] t IH]; intros H; [constructor|]. cbn [map fst] in H.
+  destruct t as [|[k2 p2] t2]; [constructor; [intros kp []|constructor]|].
+  cbn [map fst] in H. apply andb_true_iff in H as [H1 H2]. apply Nat.ltb_lt in H1.
+  specialize (IH H2). constructor; [|exact IH].
+  intros kp [<-|Hin]; [exact H1|]. inversion IH as [|? ? ? Hk _]; subst. specialize (Hk kp Hin). cbn [fst]. lia.
+Qed.
+
+Example simplify_ex :
+  ssorted (tbl ex_inv) /\ no_esc (base ex_inv) = true /\ valid_adds_wf (tbl ex_inv) /\ coh_marks (tbl ex_inv)
+  /\ is_valid_tbl (tbl ex_inv) = false
+  /\ tbl (fst (simplify ex_inv 10))
+     = [(0, mkP [mkS 11 [49]%N] []);
+        (1, mkP [mkS 13 [51; 56; 59; 53; 59; 49]%N] []);
+        (2, mkP [] [mkS 11 [49]%N]);
+        (3, mkP [] [mkS 13 [51; 56; 59; 53; 59; 49]%N])]
+  /\ map (fun i => tstate_obs (style (fst (simplify ex_inv 10)) i)) [0; 1; 2]
+     = map (fun i => tstate_obs (style_valid ex_inv i)) [0; 1; 2].
+Proof.
+  split; [apply ssorted_check; reflexivity|]. split; [reflexivity|]. split.
+  { intros x H Hv. cbn in H.
+    repeat (destruct H as [<-|H]; [first [reflexivity | (exfalso; vm_compute in Hv; discriminate)]|]). destruct H. }
+  split; [apply cohL_check; vm_compute; reflexivity|].
+  split; [vm_compute; reflexivity|]. split; vm_compute; reflexivity.
+Qed.
